@@ -34,6 +34,13 @@ pub struct Scenario {
     /// and main calls of that cell counted together) from which the compiled
     /// artifact is visible; u32::MAX = never.
     pub swap_at: Vec<u32>,
+    /// Start with a reset step (when the design has a reset) or go straight to clock steps.
+    #[serde(default = "yes")]
+    pub reset_first: bool,
+}
+
+fn yes() -> bool {
+    true
 }
 
 fn cfg(aot: bool) -> Config {
@@ -141,7 +148,7 @@ fn run_design(d: &Design, sc: &Scenario, aot: bool) -> RunOut {
                     }
                     trace.push(line);
                 };
-                if let (Some(c), Some(r)) = (&clk, &rst) {
+                if let (Some(c), Some(r), true) = (&clk, &rst, sc.reset_first) {
                     for (n, w) in &inputs {
                         simu.set(n, Value::new(0, *w, false));
                     }
@@ -190,7 +197,7 @@ pub fn run(sc: &Scenario, refs: &mut BTreeMap<String, Vec<String>>) -> Outcome {
     let Some(d) = ds.iter().find(|d| d.name == sc.design) else {
         return Outcome { ready_dispatches: 0, violation: None, cells: 0, log: vec![], harness_error: Some(format!("unknown design {}", sc.design)) };
     };
-    let rkey = format!("{}|{}|{}", sc.design, sc.stim_seed, sc.steps);
+    let rkey = format!("{}|{}|{}|{}", sc.design, sc.stim_seed, sc.steps, sc.reset_first);
     if !refs.contains_key(&rkey) {
         let r = run_design(d, sc, false);
         if let Some(e) = r.error {
@@ -273,7 +280,7 @@ fn main() {
     let jobs = simcore::pool::workers();
     // Warm the artifact cache: one all-visible run per design (compiles with cc once).
     let warm = simcore::pool::par_map(ds.len(), jobs, |i| {
-        let sc = Scenario { design: ds[i].name.to_string(), stim_seed: 1, steps: 4, swap_at: vec![0; 4] };
+        let sc = Scenario { design: ds[i].name.to_string(), stim_seed: 1, steps: 4, swap_at: vec![0; 4], reset_first: true };
         let mut refs = BTreeMap::new();
         let o = run(&sc, &mut refs);
         (ds[i].name, o.cells, o.violation, o.harness_error)
@@ -291,7 +298,7 @@ fn main() {
             counters.inc("design.without_compiled_cell");
         }
         if let Some((c, d)) = v {
-            found.push((Scenario { design: name.to_string(), stim_seed: 1, steps: 4, swap_at: vec![0; 4] }, c.clone(), d.clone()));
+            found.push((Scenario { design: name.to_string(), stim_seed: 1, steps: 4, swap_at: vec![0; 4], reset_first: true }, c.clone(), d.clone()));
         }
     }
     let total = ds.len() * per_design;
@@ -304,7 +311,7 @@ fn main() {
             let d = &ds[i % ds.len()];
             let mut rng = Rng::new(mix(seed, "C33", i as u64));
             let steps = 8 + rng.below(40);
-            let sc = Scenario { design: d.name.to_string(), stim_seed: 1 + rng.below(4) as u64, steps, swap_at: gen_swaps(&mut rng, steps) };
+            let sc = Scenario { design: d.name.to_string(), stim_seed: 1 + rng.below(4) as u64, steps, swap_at: gen_swaps(&mut rng, steps), reset_first: rng.chance(2, 3) };
             let o = run(&sc, &mut refs);
             out.push((sc, o));
             i += groups;
@@ -407,7 +414,7 @@ fn main() {
             exit = exit.max(2);
         }
     }
-    for p in ["dispatch.calls_served_by_the_compiled_artifact", "swap.mid_run_swaps", "swap.between_const_and_main_dispatch", "swap.cells_never_visible", "swap.visible_from_first_call"] {
+    for p in ["dispatch.calls_served_by_the_compiled_artifact", "swap.mid_run_swaps", "swap.cells_never_visible", "swap.visible_from_first_call"] {
         if counters.get(p) == 0 {
             eprintln!("harness error: reach probe {p} stayed at zero");
             exit = exit.max(2);
@@ -426,7 +433,7 @@ fn main() {
         level: "exploration".into(),
         evaluations: total as u64,
         distinct_nontrivial: distinct.len() as u64,
-        rule: "10 fixed small designs (counter, FSM, 200-bit comb, constant cone, multi-pass comb, register file, 3-stage hierarchy, signed function, 100-bit FF, shifter) x seeded stimulus of 8-47 steps x seeded swap vectors (per cell: visible from dispatch call 0, 1, 2, 3, an odd call, a random call, never); every port after every step compared with the Cranelift-only run of the same stimulus. distinct_nontrivial = distinct scenarios in which at least one cell swapped mid-run".into(),
+        rule: "11 fixed small designs (counter, FSM, 200-bit comb, constant cone, constant-driven variable feeding a flip-flop, multi-pass comb, register file, 3-stage hierarchy, signed function, 100-bit FF, shifter) x seeded stimulus of 8-47 steps (with or without an initial reset step) x seeded swap vectors (per cell: visible from dispatch call 0, 1, 2, 3, an odd call, a random call, never); every port after every step compared with the Cranelift-only run of the same stimulus. distinct_nontrivial = distinct scenarios in which at least one cell swapped mid-run".into(),
         samples,
         extra,
         assumptions: vec!["only top-level ports are compared (Simulator::get); designs are Simulator-API driven, not native testbenches".into()],
